@@ -46,6 +46,16 @@ pub struct Comment {
     pub text: String,
     pub class: String,  // structural position class (key material)
     pub detail: String, // parent/prev/next, human readable
+    /// texts of the code tokens around the comment (optional separators skipped); only used to decide
+    /// *which* of several comments with the same text was lost
+    pub prev_code: String,
+    pub next_code: String,
+}
+
+#[derive(Default)]
+struct Anchors {
+    last_code: String,
+    pending: Vec<usize>,
 }
 
 pub struct Analysis {
@@ -111,12 +121,13 @@ pub fn analyze(text: &str) -> Option<Analysis> {
         return None;
     }
     let mut comments = vec![];
-    let tree = build(&file.root(), false, &mut comments);
+    let mut anchors = Anchors::default();
+    let tree = build(&file.root(), false, &mut comments, &mut anchors);
     Some(Analysis { tree, comments })
 }
 
 /// `item_before_closer`: this node is a LIST_ITEM directly followed by the closing delimiter of its list.
-fn build(node: &SyntaxNode, item_before_closer: bool, comments: &mut Vec<Comment>) -> T {
+fn build(node: &SyntaxNode, item_before_closer: bool, comments: &mut Vec<Comment>, anchors: &mut Anchors) -> T {
     let kind = kind_of_node(node);
     let els: Vec<SyntaxElement> = node.children_with_tokens().collect();
     let code: Vec<usize> = (0..els.len()).filter(|&i| !is_trivia_el(&els[i])).collect();
@@ -128,7 +139,7 @@ fn build(node: &SyntaxNode, item_before_closer: bool, comments: &mut Vec<Comment
             SyntaxElement::Node(n) => {
                 let before_closer = kind_of_node(n) == TokenKind::LIST_ITEM
                     && next_code(i).map(|j| matches!(&els[j], SyntaxElement::Token(t) if CLOSERS.contains(&t.syntax_kind()))).unwrap_or(false);
-                out.push(build(n, before_closer, comments));
+                out.push(build(n, before_closer, comments, anchors));
             }
             SyntaxElement::Token(t) => {
                 let k = t.syntax_kind();
@@ -144,7 +155,14 @@ fn build(node: &SyntaxNode, item_before_closer: bool, comments: &mut Vec<Comment
                             (None, None) => format!("alone-in:{:?}", kind),
                             (Some(p), Some(n)) => format!("in:{:?}:after:{:?}:before:{:?}", kind, p, n),
                         };
-                        comments.push(Comment { text: txt, class, detail: format!("parent={:?} prev={:?} next={:?}", kind, p, n) });
+                        anchors.pending.push(comments.len());
+                        comments.push(Comment {
+                            text: txt,
+                            class,
+                            detail: format!("parent={:?} prev={:?} next={:?}", kind, p, n),
+                            prev_code: anchors.last_code.clone(),
+                            next_code: String::new(),
+                        });
                     }
                     continue;
                 }
@@ -171,6 +189,10 @@ fn build(node: &SyntaxNode, item_before_closer: bool, comments: &mut Vec<Comment
                         continue;
                     }
                 }
+                for c in anchors.pending.drain(..) {
+                    comments[c].next_code = t.text().to_string();
+                }
+                anchors.last_code = t.text().to_string();
                 out.push(T::K(k, t.text().to_string()));
             }
         }
@@ -480,15 +502,33 @@ pub fn check_one(text: &str, width: u32) -> Result<Vec<(String, String)>, &'stat
                 bad.push(d);
             }
             // comment multiset
-            let mut rest: Vec<&String> = a1.comments.iter().map(|c| &c.text).collect();
-            let mut lost: Vec<&Comment> = vec![];
-            for c in &a0.comments {
-                if let Some(p) = rest.iter().position(|r| **r == c.text) {
-                    rest.swap_remove(p);
-                } else {
-                    lost.push(c);
+            // multiset comparison by text; three rounds (same text and both neighbouring code tokens,
+            // one of them, text only) so that, among input comments with the same text, the one that
+            // is reported as lost is the one whose surroundings have no counterpart in the output
+            let mut rest: Vec<&Comment> = a1.comments.iter().collect();
+            let mut open: Vec<&Comment> = a0.comments.iter().collect();
+            for round in 0..3 {
+                let mut still = vec![];
+                for c in open {
+                    let hit = rest.iter().position(|r| {
+                        r.text == c.text
+                            && match round {
+                                0 => r.prev_code == c.prev_code && r.next_code == c.next_code,
+                                1 => r.prev_code == c.prev_code || r.next_code == c.next_code,
+                                _ => true,
+                            }
+                    });
+                    match hit {
+                        Some(p) => {
+                            rest.swap_remove(p);
+                        }
+                        None => still.push(c),
+                    }
                 }
+                open = still;
             }
+            let lost: Vec<&Comment> = open;
+            let rest: Vec<&String> = rest.iter().map(|c| &c.text).collect();
             if !rest.is_empty() && lost.is_empty() {
                 bad.push(("c17:comment-invented".into(), format!("output has a comment the input lacks: {:?}", rest[0])));
             }
@@ -559,7 +599,10 @@ fn collect_points(node: &SyntaxNode, pts: &mut Vec<Point>) {
                     (MATCH_EXPR, MATCH_ARM) => Some("arm"),
                     (NAMED_FIELD_LIST, LIST_ITEM) | (ENUM_VARIANT_LIST, LIST_ITEM) => Some("field"),
                     (USE_GROUP, LIST_ITEM) => None,
-                    (_, LIST_ITEM) => Some("item"),
+                    (_, LIST_ITEM) => {
+                        let n_items = els.iter().filter(|e| matches!(e, SyntaxElement::Node(x) if kind_of_node(x) == LIST_ITEM)).count();
+                        if n_items == 1 { Some("item-single") } else { Some("item") }
+                    }
                     _ => None,
                 };
                 if let Some(c) = class {
@@ -601,7 +644,7 @@ fn collect_points(node: &SyntaxNode, pts: &mut Vec<Point>) {
 /// trail-block-nl (` /* c */\n`).
 pub const ALL_STYLES_BEFORE: &[&str] = &["own-line", "own-block", "inline-block"];
 pub const ALL_STYLES_AFTER: &[&str] = &["trail-line", "trail-block", "trail-block-nl"];
-pub const ALL_CLASSES: &[&str] = &["stmt", "element", "arm", "field", "item", "open-brace", "close-brace", "else"];
+pub const ALL_CLASSES: &[&str] = &["stmt", "element", "arm", "field", "item", "item-single", "open-brace", "close-brace", "else"];
 
 /// Everything except a trailing block comment behind a list item's comma (`f(a, /* c */ b)`,
 /// `f(a, b, /* c */)`): the comma-list printer and the trivia printer lay such a comment out
@@ -619,6 +662,13 @@ pub const COMMENT_SITES: &[(&str, &str)] = &[
     ("item", "own-block"),
     ("item", "inline-block"),
     ("item", "trail-line"),
+    // the only entry of a list: no trailing line comment. `f(\n a == b, // c\n)`: the first pass drops the
+    // (optional) comma and keeps the comment, which the parser then attaches to `b`, i.e. inside the
+    // group of `a == b`; a hard line inside a group forces it to break, so the second pass prints
+    // `a ==\n b // c`. The key would name the operator/chain that re-breaks (not a closed set).
+    ("item-single", "own-line"),
+    ("item-single", "own-block"),
+    ("item-single", "inline-block"),
     // in front of `else` only the inline style: `} // c\n else` and `} /* c */\n else` are laid out
     // differently by the first and the second pass (indent behind a line comment; line break behind a
     // block comment kept by print_trivia only) -- the same two trivia-printer defects as above.
@@ -631,12 +681,12 @@ fn site_allowed(class: &str, style: &str) -> bool {
 
 fn render_comment(style: &str, n: usize) -> String {
     match style {
-        "own-line" => format!("\n// c{}\n", n),
-        "own-block" => format!("\n/* c{} */\n", n),
-        "inline-block" => format!("/* c{} */ ", n),
-        "trail-line" => format!(" // c{}\n", n),
-        "trail-block" => format!(" /* c{} */", n),
-        "trail-block-nl" => format!(" /* c{} */\n", n),
+        "own-line" => format!("\n// zq{}\n", n),
+        "own-block" => format!("\n/* zq{} */\n", n),
+        "inline-block" => format!("/* zq{} */ ", n),
+        "trail-line" => format!(" // zq{}\n", n),
+        "trail-block" => format!(" /* zq{} */", n),
+        "trail-block-nl" => format!(" /* zq{} */\n", n),
         _ => unreachable!(),
     }
 }
@@ -842,6 +892,7 @@ pub fn run(args: &Args) {
     let mut rep = Reporter::new(args);
     let nwidths: usize = args.get("widths").map(|s| s.parse().unwrap()).unwrap_or(3);
     let opts = MutOpts { wide: args.get("wide") == Some("1"), measure: args.get("cmeasure") == Some("1") };
+    let mut per_key: std::collections::HashMap<String, u32> = Default::default();
     for idx in args.indices() {
         let mut rng = Rng::new(args.seed, 0xc17, idx);
         // even indices: corpus file as is (walking the corpus); odd: layout mutant of a small file
@@ -883,7 +934,15 @@ pub fn run(args: &Args) {
                     let snip: String = if idx < 64 { text.chars().take(160).collect() } else { String::new() };
                     rep.line(vhc::json!({"t": "ok", "idx": idx, "h": vhc::fnv(text.as_bytes()) ^ (w as u64), "fam": family, "w": w, "snip": snip}));
                     for (key, what) in bad {
-                        rep.bad(idx, &key, &format!("width {}: {}", w, what), &text, &family);
+                        // the reporter keeps the input text only for the first 200 reports of a shard: report
+                        // each key at most 3 times per shard so that every distinct key comes with a witness;
+                        // all occurrences are counted
+                        rep.count(&format!("bad:{}", key), 1);
+                        let n = per_key.entry(key.clone()).or_insert(0u32);
+                        *n += 1;
+                        if *n <= 3 {
+                            rep.bad(idx, &key, &format!("width {}: {}", w, what), &text, &family);
+                        }
                     }
                 }
                 Ok(Err(why)) => {
@@ -893,7 +952,12 @@ pub fn run(args: &Args) {
                 Err(p) => {
                     rep.count("formatted", 1);
                     let key = format!("panic@{}:{}", p.loc, msg_class(&p.msg));
-                    rep.bad(idx, &key, &format!("width {}: formatter panicked at {}: {}", w, p.loc, p.msg), &text, &family);
+                    rep.count(&format!("bad:{}", key), 1);
+                    let n = per_key.entry(key.clone()).or_insert(0u32);
+                    *n += 1;
+                    if *n <= 3 {
+                        rep.bad(idx, &key, &format!("width {}: formatter panicked at {}: {}", w, p.loc, p.msg), &text, &family);
+                    }
                 }
             }
         }
